@@ -333,7 +333,9 @@ SELF_READS = ("span", "start", "end", "start_date", "end_date", "num_periods", "
 
 
 def _case_returns(f):
-    """match by: case "kw" | ...: return E  ->  {kw: E}"""
+    """the keyword dispatch of a function on its second parameter, as {keyword: returned expression}, with "_" for the fall-through:
+         match by: case "kw" | ...: return E ; case _: return D
+         if by == "kw": return E ... / if by in ("a", "b"): return E ... ; return D        (a chain of early returns)"""
     out = {}
     for n in ast.walk(f):
         if isinstance(n, ast.Match):
@@ -343,6 +345,42 @@ def _case_returns(f):
                 for p_ in pats:
                     if isinstance(p_, ast.MatchValue) and isinstance(p_.value, ast.Constant) and len(rets) == 1:
                         out[p_.value.value] = rets[0].value
+                    elif isinstance(p_, ast.MatchAs) and p_.pattern is None and len(rets) == 1:
+                        out["_"] = rets[0].value
+    if out:
+        return out
+    ps = params(f)
+    subject = ps[1] if len(ps) > 1 else None
+    from ..core import strip_docstring
+
+    def keys_of(test):
+        if isinstance(test, ast.Compare) and len(test.ops) == 1 and isinstance(test.left, ast.Name) and test.left.id == subject:
+            c = test.comparators[0]
+            if isinstance(test.ops[0], ast.Eq) and isinstance(c, ast.Constant):
+                return [c.value]
+            if isinstance(test.ops[0], ast.In) and isinstance(c, (ast.Tuple, ast.List, ast.Set)) and all(isinstance(e, ast.Constant) for e in c.elts):
+                return [e.value for e in c.elts]
+        if isinstance(test, ast.BoolOp) and isinstance(test.op, ast.Or):
+            ks = [keys_of(v) for v in test.values]
+            return [k for sub_ in ks for k in sub_] if all(ks) else None
+        return None
+
+    def walk_chain(stmts):
+        for st in stmts:
+            if isinstance(st, ast.If):
+                ks = keys_of(st.test)
+                rets = [x for x in st.body if isinstance(x, ast.Return)]
+                if ks and len(rets) == 1 and len(st.body) == 1:
+                    for k in ks:
+                        out.setdefault(k, rets[0].value)
+                    walk_chain(st.orelse)
+                    continue
+                return
+            if isinstance(st, ast.Return) and st.value is not None:
+                out.setdefault("_", st.value)
+                return
+            return
+    walk_chain(strip_docstring(f.body))
     return out
 
 
@@ -414,11 +452,9 @@ def rule_r6(chk):
     ok = len(aug) == 1 and isinstance(aug[0].op, ast.Sub) and unparse(aug[0].value) == byname
     chk.ob("C13-R6", "series.main.Series._shift_by_number", ok if aug else None, f"self.start -= {byname}: the observation at t moves to t - {byname} "
            "(a lag for negative values)", sm.loc(sbn))
-    wildcard = [c for n in ast.walk(pshift) if isinstance(n, ast.Match) for c in n.cases if isinstance(c.pattern, ast.MatchAs) and c.pattern.pattern is None]
-    if wildcard:
-        r = [x for x in wildcard[0].body if isinstance(x, ast.Return)]
-        ok = len(r) == 1 and unparse(r[0].value).replace(" ", "") == f"self+{params(pshift)[1]}"
-        chk.ob("C13-R6", "dates.Period.shift[integer]", ok, f"returns {unparse(r[0].value) if r else '?'} (reference period t + shift)", dm.loc(pshift))
+    if "_" in cases:
+        ok = unparse(cases["_"]).replace(" ", "") in (f"self+{params(pshift)[1]}", f"{params(pshift)[1]}+self")
+        chk.ob("C13-R6", "dates.Period.shift[integer]", ok, f"returns {unparse(cases['_'])} (reference period t + shift)", dm.loc(pshift))
     kws = sorted(k[len("_shift_"):] for k in meths if k.startswith("_shift_") and k != "_shift_by_number")
     for kw in kws:
         f = meths[f"_shift_{kw}"]
